@@ -110,9 +110,4 @@ def ilpJ (m : Ilp String) : Json :=
         ("cons", listJ conJ m.cons),
         ("obj", termsJ m.obj)]
 
-def mapIlp {V W : Type} (f : V → W) (m : Ilp V) : Ilp W where
-  vars := m.vars.map fun v => (f v.1, v.2)
-  cons := m.cons.map fun c => ⟨c.terms.map fun t => (t.1, f t.2), c.sense, c.rhs⟩
-  obj := m.obj.map fun t => (t.1, f t.2)
-
 end Aldy.Driver
